@@ -4,6 +4,9 @@ Rule (nullness typestate on the malloc result r, decided on the CFG of each cons
   R1  every use of r (or of an address computed from r) other than the NULL comparison and the return is dominated by the
       non-NULL edge of a branch on (r == NULL);
   R3  (lockset interpretation) at every NULL return of a constructor no mutex is held and no pre-existing object (the parent) has been written.
+  R4  the constructors perform no allocation besides their own checked one: they reach nsync_mu_wait (an expired note is notified on the spot,
+      and the notifier waits for a child list that is empty) with a condition that is already true, so the conditional wait may ask for a
+      waiter record - an allocation whose failure is not handled - only on a path where it has found its condition false.
   R2  the NULL path (blocks reachable from the NULL edge without passing the non-NULL edge) contains no store and no call, so
       nothing - in particular the intended parent - is touched, and it returns r (i.e. NULL) or a literal NULL."""
 from .. import ir as IR
@@ -53,6 +56,8 @@ def run(ctx, rep):
     rep.rule('C19.R2', 'the NULL path performs no store and no call and returns NULL')
     rep.rule('C19.R3', 'on the NULL return no lock is held and no existing object has been written (the parent stays unchanged and usable)')
     alloc_fns = allocator_functions(mod)
+    rep.rule('C19.R4', 'the conditional wait obtains a waiter record (an unchecked allocation) only after finding its condition false')
+    check_wait_allocates_lazily(ctx, rep, 'C19.R4')
     todo = [(n, True) for n in CONSTRUCTORS]
     done = set()
     while todo:
@@ -178,3 +183,20 @@ def run(ctx, rep):
     return rep.finish(
         explanation='Nullness typestate of the malloc result in nsync_note_new and nsync_counter_new, decided by dominance on the CFG: all uses are behind the non-NULL edge; the NULL path has no store/call and returns NULL.',
         trusted_base=['clang 14 front end + sroa', 'tools/irfacts', 'dominator computation in nsa/cfg.py'])
+
+
+def check_wait_allocates_lazily(ctx, rep, rid):
+    from .. import mumodel
+    eng, runs = mumodel.analyse(ctx)
+    n = 0
+    for r in eng.records:
+        if r.kind == 'waiter_new' and (r.entry or '').startswith('nsync_mu_wait'):
+            n += 1
+            ok = r.cond_vals is not None and set(r.cond_vals) <= {0}
+            rep.instance(rid, 'waiter record requested at %s, last condition value %s [%s]' % (r.where(), r.cond_vals, r.entry)); rep.oblig(rid, ok)
+            if not ok:
+                rep.violate(Violation(rid, r.where(),
+                    'the conditional wait asks for a waiter record although its condition %s: nsync_note_new with an already expired deadline notifies the new note on the spot and reaches this wait with a true condition - a second, unchecked allocation inside the constructor, whose failure is a crash instead of a NULL return [entry %s]'
+                    % ('may be true' if r.cond_vals else 'has not been evaluated (or is absent)', r.entry), site='%s/eager-waiter' % r.inst.fn.name))
+    if n == 0:
+        raise AnalysisBroken('%s: the conditional wait never requests a waiter record' % rid)
